@@ -81,6 +81,10 @@ def gen_cc_doc(rng, names_all):
             if rng.random() < 0.2:
                 # the same CDecay statement given again (a user file read after the main file): each statement gets its table
                 stmts.append(["cdecay", c])
+    if cds and rng.random() < 0.3:
+        # a CopyDecay statement naming the subject of a CDecay, from a source that has no table: the copy creates nothing, the
+        # CDecay statement gets its table all the same
+        stmts.append(["copydecay", rng.choice(sorted(cds)), rng.choice(["NoSuchSource", "Zork", "pi0"])])
     rng.shuffle(stmts)
     return stmts
 
